@@ -232,12 +232,18 @@ _FINDINGS_PATH = os.path.join(VERIF, "known_findings.json")
 
 def load_findings(pid: str) -> dict[str, dict[str, Any]]:
     """Known (unrepaired) findings of property pid, keyed by their identifying key."""
-    try:
-        with open(_FINDINGS_PATH) as f:
-            data = json.load(f)
-    except FileNotFoundError:
-        return {}
-    return {e["key"]: e for e in data.get("known", []) if e["property"] == pid}
+    import glob
+    res: dict[str, dict[str, Any]] = {}
+    for path in [_FINDINGS_PATH] + sorted(glob.glob(os.path.join(VERIF, "findings.d", "*.json"))):
+        try:
+            with open(path) as f:
+                data = json.load(f)
+        except FileNotFoundError:
+            continue
+        for e in data.get("known", []):
+            if e["property"] == pid:
+                res[e["key"]] = e
+    return res
 
 
 # ---------------------------------------------------------------------------- verdicts
